@@ -3,6 +3,7 @@ import KyberModel.Groups.Scalar
 import KyberModel.Groups.Edwards
 import KyberModel.Groups.Weierstrass
 import KyberModel.Groups.Decode
+import KyberModel.Groups.BlsG2
 /-
 Handler `grp <group> <program>`: straight-line programs of group / scalar operations over a pool of
 variables, executed on the reference models (C01, C03, C05, C18). Value semantics: every statement
@@ -79,6 +80,12 @@ def bn256G2Base : String :=
   "2ecca446ff6f3d4d03c76e9b5c752f28bc37b364cb05ac4a37eb32e1c32459708f25386f72c9462b81597d65ae2092c4b97792155dcdaad32b8a6dd41792534c2db10ef5233b0fe3962b9ee6a4bbc2b5bde01a54f3513d42df972e128f31bf12274e5747e8cafacc3716cc8699db79b22f0e4ff3c23e898f694420a3be3087a5"
 def bn254G2Base : String :=
   "198e9393920d483a7260bfb731fb5d25f1aa493335a9e71297e485b7aef312c21800deef121f1e76426a00665e5c4479674322d4f75edadd46debd5cd992f6ed090689d0585ff075ec9e99ad690c3395bc4b313370b38ef355acdadcd122975b12c85ea5db8c6deb4aab71808dcb408fe3d1e7690c43d37b4ce6cc0166fa7daa"
+
+/-- BLS12-381 G2 (`Groups/BlsG2.lean`): twist over Fp2, ZCash compressed encoding. -/
+def blsG2Ops : GroupOps Fp2.Pt :=
+  { q := BLS12381.r, le := false, zero := none, base := BLS12381.g2Base,
+    add := Fp2.addPt BLS12381.twist, neg := Fp2.negPt BLS12381.twist, smul := Fp2.smul BLS12381.twist,
+    enc := BLS12381.encG2, dec := BLS12381.decG2 }
 
 /-- Residue (Schnorr) group of squares modulo a prime `P`, order `Q`, generator `G` (group/p256/residue.go):
     the group operation is multiplication mod `P`, inverses by Fermat, scalar multiplication is `powMod`. -/
@@ -171,6 +178,7 @@ def handleGrp : List String → String
       runGrp (wOps BLS12381.curve BLS12381.r BLS12381.base BLS12381.enc decBlsG1) prog
   | ["bn256g2", prog] => runGrp (g2Ops BN256.twist BN256.n BN256.decG2 bn256G2Base) prog
   | ["bn254g2", prog] => runGrp (g2Ops BN254.twist BN254.n BN254.decG2 bn254G2Base) prog
+  | ["bls12381g2", prog] => runGrp blsG2Ops prog
   | [model, prog] =>
     match model.splitOn ":" with
     | ["qr", ps, qs, gs] => match hexN ps, hexN qs, hexN gs with
